@@ -237,6 +237,15 @@ def gen_filters(rng, kind, paths):
 
 
 # ------------------------------------------------------------------ model
+def _content(c):
+    """A content of the pool: base64 text, or 'rand:<seed>:<size>' for large seeded contents."""
+    if c.startswith('rand:'):
+        _, sd, size = c.split(':')
+        import random
+        return random.Random(int(sd)).randbytes(int(size))
+    return base64.b64decode(c)
+
+
 class SnapModel:
     def __init__(self, name, loc, owner, files, at, note):
         self.name, self.loc, self.owner, self.files, self.at, self.note = name, loc, owner, files, at, note
@@ -303,7 +312,7 @@ class History:
         self.snaps = []
         self.clients = []
         self.refs = []          # RefRepo per user
-        self.contents = [base64.b64decode(c) for c in case['contents']]
+        self.contents = [_content(c) for c in case['contents']]
         self.enc = case['settings'].get('encryption') is not None
         self.orphans_possible = False
         self.opi = -1
